@@ -432,6 +432,13 @@ def _wrapper_ok(fn_node: ast.FunctionDef, method_name: str):
                 if isinstance(b, ast.Name) and b.id == P and not isinstance(t, ast.Name):
                     problems.append(f"stores into the argument: {unparse(t)}")
     calls_on_new = [n for n in ast.walk(fn_node) if isinstance(n, ast.Call) and unparse(n.func) == f"{newname}.{method_name}"]
+    # the same through a bound method fetched first: method = getattr(new, "name") / method = new.name ; method(...)
+    bound = {n.targets[0].id for n in ast.walk(fn_node) if isinstance(n, ast.Assign) and len(n.targets) == 1 and isinstance(n.targets[0], ast.Name)
+             and (unparse(n.value) == f"{newname}.{method_name}" or (isinstance(n.value, ast.Call) and dotted(n.value.func) == "getattr" and len(n.value.args) == 2
+                  and unparse(n.value.args[0]) == newname and isinstance(n.value.args[1], ast.Constant) and n.value.args[1].value == method_name))}
+    calls_on_new += [n for n in ast.walk(fn_node) if isinstance(n, ast.Call) and isinstance(n.func, ast.Name) and n.func.id in bound]
+    calls_on_new += [n for n in ast.walk(fn_node) if isinstance(n, ast.Call) and isinstance(n.func, ast.Call) and dotted(n.func.func) == "getattr" and len(n.func.args) == 2
+                     and unparse(n.func.args[0]) == newname and isinstance(n.func.args[1], ast.Constant) and n.func.args[1].value == method_name]
     if not calls_on_new:
         problems.append(f"never calls {newname}.{method_name}()")
     rets = [n for n in ast.walk(fn_node) if isinstance(n, ast.Return) and n.value is not None]
@@ -455,9 +462,7 @@ def rule_r2(chk, model):
     cm = chk.repo.mod("irispie.conveniences.copies")
     f = cm.func("Mixin.copy")
     chk.saw(cm, "Mixin.copy")
-    rets = [n for n in walk_no_nested(f) if isinstance(n, ast.Return)]
-    ok = len(rets) == 1 and isinstance(rets[0].value, ast.Call) and dotted(rets[0].value.func) in ("_cp.deepcopy", "copy.deepcopy") \
-        and unparse(rets[0].value.args[0]) == params(f)[0]
+    ok = _returns_deepcopy_of_self(f)
     chk.ob("C10-R2", "conveniences.copies.Mixin.copy", ok, "copy() is deepcopy(self)", cm.loc(f))
     # Series defines no __deepcopy__/__copy__/__reduce__ that could alias data
     custom = [n for n in ("__deepcopy__", "__copy__", "__reduce__", "__reduce_ex__", "__getstate__") if n in model.methods]
@@ -877,6 +882,29 @@ def rule_r7(chk, model):
         chk.saw(mod)
 
 
+def _returns_deepcopy_of_self(f):
+    """every return value is deepcopy(self), directly or through a local bound once (plain or annotated assignment) to it"""
+    rets = [r.value for r in walk_no_nested(f) if isinstance(r, ast.Return) and r.value is not None]
+    if not rets:
+        return False
+    ann = {n.target.id: n.value for n in walk_no_nested(f) if isinstance(n, ast.AnnAssign) and isinstance(n.target, ast.Name) and n.value is not None}
+    plain = {}
+    for n in walk_no_nested(f):
+        if isinstance(n, ast.Assign) and len(n.targets) == 1 and isinstance(n.targets[0], ast.Name):
+            plain.setdefault(n.targets[0].id, []).append(n.value)
+    def res(e, depth=3):
+        while isinstance(e, ast.Name) and depth:
+            if e.id in ann and e.id not in plain:
+                e = ann[e.id]
+            elif e.id in plain and len(plain[e.id]) == 1 and e.id not in ann:
+                e = plain[e.id][0]
+            else:
+                break
+            depth -= 1
+        return e
+    return all(isinstance(res(r), ast.Call) and (dotted(res(r).func) or "").endswith("deepcopy") and res(r).args and unparse(res(r).args[0]) == params(f)[0] for r in rets)
+
+
 def rule_r9(chk, model):
     chk.rule("C10-R9", "a new Series never shares storage with the one it was made from: conveniences.copies.Mixin.copy is a deep copy, and no "
              "function of the series package takes a shallow copy (copy.copy / __copy__) of a series - a shifted or transformed result that "
@@ -885,8 +913,8 @@ def rule_r9(chk, model):
     cf = cm.func("Mixin.copy")
     chk.saw(cm, "Mixin.copy")
     rets = [r.value for r in walk_no_nested(cf) if isinstance(r, ast.Return)]
-    ok = len(rets) == 1 and isinstance(rets[0], ast.Call) and (dotted(rets[0].func) or "").endswith("deepcopy") and unparse(rets[0].args[0]) == params(cf)[0]
-    chk.ob("C10-R9", "conveniences.copies.Mixin.copy", ok, f"returns {unparse(rets[0]) if rets else '?'}", cm.loc(cf), sure=True)
+    ok = _returns_deepcopy_of_self(cf)
+    chk.ob("C10-R9", "conveniences.copies.Mixin.copy", ok, f"returns {unparse(rets[0]) if rets else '?'}" + (" = deepcopy(self)" if ok else ""), cm.loc(cf), sure=True)
     n = 0
     for mod in chk.repo.modules.values():
         if not mod.name.startswith("irispie.series"):
